@@ -4,15 +4,16 @@
   (`g : Globals`, including invalid mode bytes).  See `D128/Props/C20.lean` for the model and for
   the entry points already covered there.
 
-  Part A.  The exported elementary functions `Sqrt`, `Cbrt`, `Exp`, `Expm1`, `Exp10`, `Exp2`
-           (unconditional); `Log`, `Log2`, `Log10`, `Log1p` (all modes that never round towards zero,
-           in particular the default; the directed modes under an explicit non-degeneracy hypothesis
-           — see `D128/Proofs/TotalLog.lean` for what is missing); `Decimal.PowWithMode` (every mode
-           byte, given that its one division `1/d` returns; hence unconditionally for valid modes).
-  Part C.  Restatements of correctness results proved for other properties (they include totality):
-           Add/Sub/Mul/Quo/QuoRem (`…WithMode`, valid modes), `Decimal.Round` (every mode byte),
-           `Decimal.Ceil/Floor`, package `Round/Trunc/Ceil/Floor`, `FromFloat64/32`, `Float64/32`,
-           `New`, `Ldexp`.
+  Part A.  The exported elementary functions `Sqrt`, `Cbrt`, `Exp`, `Expm1`, `Exp10`, `Exp2`, `Log`,
+           `Log2`, `Log10` (unconditional: every bit pattern, every mode byte; for the logarithms in
+           the directed modes this uses the accuracy theorem `LogAcc.log_spec`, see
+           `D128/Proofs/TotalLogAll.lean`); `Log1p` (all modes that never round towards zero, in
+           particular the default; in the directed modes for arguments with exponent ≥ −3264 —
+           `D128/Proofs/TotalLog1pAll.lean` says what is missing and why); `Decimal.PowWithMode`/`Pow` (every mode byte).
+  Part C.  Add/Sub/Mul/Quo/QuoRem (`…WithMode` and the default-mode wrappers), `New`, `Ldexp` for
+           EVERY mode byte; and restatements of results of other properties that include totality:
+           `Decimal.Round` (every mode byte), `Decimal.Ceil/Floor`, package `Round/Trunc/Ceil/Floor`,
+           `Float64/32`; `FromFloat64/32` for every bit pattern and every mode byte.
   Part B.  The working-format layer they are built from (`decomposed192.*`, `uint192.div`) and the
            rounding kernel, with the exact preconditions under which they are total:
            `U192.div` needs a non-zero divisor (else Go's integer-divide-by-zero panic),
@@ -25,6 +26,12 @@ import D128.Proofs.TotalElem
 import D128.Proofs.TotalExp2
 import D128.Proofs.TotalLog
 import D128.Proofs.TotalPow
+import D128.Proofs.TotalMisc
+import D128.Proofs.TotalFloat
+import D128.Proofs.TotalLogAll
+import D128.Proofs.TotalLog1pAll
+import D128.Props.C05
+import D128.Gen.ScanText
 import D128.Props.C01
 import D128.Props.C02
 import D128.Props.C02Quo
@@ -54,8 +61,30 @@ theorem Exp10_total (g : Globals) (d : Gen.Decimal) : ∃ r, Gen.Exp10 g d = .ok
 theorem Exp2_total (g : Globals) (d : Gen.Decimal) : ∃ r, Gen.Exp2 g d = .ok r :=
   D128.Proofs.Total.Exp2_total g d
 
-/-- the logarithms under every mode byte except ToZero (2), ToNegativeInf (4), ToPositiveInf (5) —
-in particular under the package default `DefaultRoundingMode = ToNearestEven` -/
+/-- the logarithms: every bit pattern, EVERY mode byte (also the directed modes) -/
+theorem Log_total (g : Globals) (d : Gen.Decimal) : ∃ r, Gen.Log g d = .ok r :=
+  Log_total_all g d
+theorem Log2_total (g : Globals) (d : Gen.Decimal) : ∃ r, Gen.Log2 g d = .ok r :=
+  Log2_total_all g d
+theorem Log10_total (g : Globals) (d : Gen.Decimal) : ∃ r, Gen.Log10 g d = .ok r :=
+  Log10_total_all g d
+/-- the fact behind it: the working-format logarithm of a finite non-zero `Decimal` is never the pair
+"zero significand, sticky flag −1" on which the rounding kernel would spin in the directed modes -/
+theorem log_never_degenerate (d : Gen.Decimal) (hs : (d.decompose).1.toNat ≠ 0)
+    (r : Bool × Gen.decomposed192 × Int8) (hr : Gen.decomposed192.log (logArg d) = .ok r) :
+    r.2.1.sig.toNat ≠ 0 ∨ r.2.2 ≠ -1 := log_good d hs r hr
+
+/-- **partial** — `Log1p`: every mode byte for arguments with exponent `≥ -3264` (decoded biased exponent
+`≥ 2912`), and every argument in the modes that never round towards zero.  Missing: the directed modes for
+finite arguments below `10^-3264`, where `int16` exponents of the series wrap and the result is wrong anyway
+(`Log1p(1e-4000) = +Inf`, `Log1p(1e-3641) = 0`; see `D128/Proofs/TotalLog1pAll.lean`). -/
+theorem Log1p_total_partial (g : Globals) (d : Gen.Decimal)
+    (h : 2912 ≤ (d.decompose).2.toInt ∨
+      (g.DefaultRoundingMode ≠ 2 ∧ g.DefaultRoundingMode ≠ 4 ∧ g.DefaultRoundingMode ≠ 5)) :
+    ∃ r, Gen.Log1p g d = .ok r := D128.Proofs.Total.Log1p_total_partial g d h
+
+/-- (earlier, weaker forms, kept for reference) the logarithms under every mode byte except ToZero (2),
+ToNegativeInf (4), ToPositiveInf (5); for `Log1p` this is still the best unconditional statement -/
 theorem Log_total_modes (g : Globals) (d : Gen.Decimal)
     (hm : g.DefaultRoundingMode ≠ 2 ∧ g.DefaultRoundingMode ≠ 4 ∧ g.DefaultRoundingMode ≠ 5) :
     ∃ r, Gen.Log g d = .ok r := D128.Proofs.Total.Log_total_modes g d hm
@@ -81,15 +110,11 @@ theorem Log10_total_partial (g : Globals) (d : Gen.Decimal)
     (hgood : ∀ r, Gen.decomposed192.log (logArg d) = .ok r → Good r) :
     ∃ r, Gen.Log10 g d = .ok r := D128.Proofs.Total.Log10_total_partial g d hgood
 
-/-- `PowWithMode` for every pair of bit patterns and every VALID mode … -/
-theorem PowWithMode_total (d o : Gen.Decimal) (rm : UInt8) (m : Spec.Mode)
-    (hm : Spec.Mode.ofNat? rm.toNat = some m) : ∃ r, Gen.Decimal.PowWithMode d o rm = .ok r :=
-  PowWithMode_total_of d o rm
-    (let ⟨r, h, _⟩ := Props.C02.quo_correct (Gen.one false) d rm m hm; ⟨r, h⟩)
-/-- … and for every mode byte whatsoever once the division `1/d` (used only for `o = -1`) returns -/
-theorem PowWithMode_total_of_quo (d o : Gen.Decimal) (rm : UInt8)
-    (hq : ∃ r, Gen.Decimal.QuoWithMode (Gen.one false) d rm = .ok r) :
-    ∃ r, Gen.Decimal.PowWithMode d o rm = .ok r := PowWithMode_total_of d o rm hq
+/-- `PowWithMode` / `Pow` for every pair of bit patterns and EVERY mode byte -/
+theorem PowWithMode_total (d o : Gen.Decimal) (rm : UInt8) :
+    ∃ r, Gen.Decimal.PowWithMode d o rm = .ok r := PowWithMode_total_all d o rm
+theorem Pow_total (g : Globals) (d o : Gen.Decimal) : ∃ r, Gen.Decimal.Pow g d o = .ok r :=
+  Pow_total_all g d o
 /-- the general path `log → mul → epow → rcp → reduce192` of `Pow` (every mode byte) -/
 theorem Pow_general_total (mode : UInt8) (oNeg neg : Bool) (oSig : U128) (oExp : Int16) (dSig : U128)
     (dExp : Int16) (hd : dSig.toNat ≠ 0) :
@@ -97,6 +122,8 @@ theorem Pow_general_total (mode : UInt8) (oNeg neg : Bool) (oSig : U128) (oExp :
   let ⟨r, h, _⟩ := ok_of_triple_pre (general_triple mode oNeg neg oSig oExp dSig dExp) hd; ⟨r, h⟩
 
 example : ∃ r, Gen.Log ⟨0⟩ ⟨7, 0x3040000000000000⟩ = .ok r := Log_total_modes _ _ (by decide)
+example : ∃ r, Gen.Log10 ⟨4⟩ ⟨7, 0x3030000000000000⟩ = .ok r := Log10_total _ _
+example : ∃ r, Gen.Log1p ⟨5⟩ ⟨7, 0x3030000000000000⟩ = .ok r := Log1p_total_partial _ _ (Or.inl (by decide))
 example : ∃ r, Gen.Exp2 ⟨2⟩ ⟨300, 0xB040000000000000⟩ = .ok r := Exp2_total _ _
 
 /-- non-trivial instances: a finite positive argument with a non-default (and an invalid) mode -/
@@ -108,10 +135,10 @@ example : ∃ r, Gen.Exp ⟨200⟩ ⟨1, 0xB040000000000000⟩ = .ok r := Exp_to
 /-- the general 192-bit division is exact for every non-zero divisor … -/
 theorem U192_div_total (n o : U192) (ho : o.toNat ≠ 0) :
     ∃ q r, Gen.U192.div n o = .ok (q, r) ∧ q.toNat = n.toNat / o.toNat ∧
-      r.toNat = n.toNat % o.toNat := U192_div_spec n o ho
+      r.toNat = n.toNat % o.toNat := D128.Proofs.Total.U192_div_spec n o ho
 /-- … and panics with Go's integer divide by zero otherwise. -/
 theorem U192_div_panics (n o : U192) (ho : o.toNat = 0) :
-    Gen.U192.div n o = .error .divZero := U192_div_zero n o ho
+    Gen.U192.div n o = .error .divZero := D128.Proofs.Total.U192_div_zero n o ho
 
 theorem d192_mul_total (d o : Gen.decomposed192) (t : Int8) :
     ∃ r, Gen.decomposed192.mul d o t = .ok r :=
@@ -163,42 +190,29 @@ theorem reduce192_total (rm : UInt8) (neg : Bool) (sig : U192) (exp : Int16) (t 
 
 /-! ## Part C: totality contained in correctness theorems of other properties -/
 
-theorem AddWithMode_total (d o : Gen.Decimal) (rm : UInt8) (m : Spec.Mode)
-    (hm : Spec.Mode.ofNat? rm.toNat = some m) : ∃ r, Gen.Decimal.AddWithMode d o rm = .ok r :=
-  let ⟨r, h, _⟩ := Props.C01.add_correct d o rm m hm; ⟨r, h⟩
-theorem SubWithMode_total (d o : Gen.Decimal) (rm : UInt8) (m : Spec.Mode)
-    (hm : Spec.Mode.ofNat? rm.toNat = some m) : ∃ r, Gen.Decimal.SubWithMode d o rm = .ok r :=
-  let ⟨r, h, _⟩ := Props.C01.sub_correct d o rm m hm; ⟨r, h⟩
-theorem MulWithMode_total (d o : Gen.Decimal) (rm : UInt8) (m : Spec.Mode)
-    (hm : Spec.Mode.ofNat? rm.toNat = some m) : ∃ r, Gen.Decimal.MulWithMode d o rm = .ok r :=
-  let ⟨r, h, _⟩ := Props.C02.mul_correct d o rm m hm; ⟨r, h⟩
-theorem QuoWithMode_total (d o : Gen.Decimal) (rm : UInt8) (m : Spec.Mode)
-    (hm : Spec.Mode.ofNat? rm.toNat = some m) : ∃ r, Gen.Decimal.QuoWithMode d o rm = .ok r :=
-  let ⟨r, h, _⟩ := Props.C02.quo_correct d o rm m hm; ⟨r, h⟩
-theorem QuoRemWithMode_total (d o : Gen.Decimal) (rm : UInt8) (m : Spec.Mode)
-    (hm : Spec.Mode.ofNat? rm.toNat = some m) : ∃ r, Gen.Decimal.QuoRemWithMode d o rm = .ok r :=
-  let ⟨q, r, h, _⟩ := Props.C03.quoRem_correct d o rm m hm; ⟨(q, r), h⟩
-
-/-- the default-mode entry points `Add`, `Sub`, `Mul`, `Quo`, `QuoRem`, `Pow` (valid default mode) -/
-theorem Add_total (g : Globals) (d o : Gen.Decimal) (m : Spec.Mode)
-    (hm : Spec.Mode.ofNat? g.DefaultRoundingMode.toNat = some m) : ∃ r, Gen.Decimal.Add g d o = .ok r :=
-  let ⟨r, h, _⟩ := Props.C01.add_correct_default g d o m hm; ⟨r, h⟩
-theorem Sub_total (g : Globals) (d o : Gen.Decimal) (m : Spec.Mode)
-    (hm : Spec.Mode.ofNat? g.DefaultRoundingMode.toNat = some m) : ∃ r, Gen.Decimal.Sub g d o = .ok r :=
-  let ⟨r, h, _⟩ := Props.C01.sub_correct_default g d o m hm; ⟨r, h⟩
-theorem Mul_total (g : Globals) (d o : Gen.Decimal) (m : Spec.Mode)
-    (hm : Spec.Mode.ofNat? g.DefaultRoundingMode.toNat = some m) : ∃ r, Gen.Decimal.Mul g d o = .ok r :=
-  let ⟨r, h, _⟩ := Props.C02.mul_correct_default g d o m hm; ⟨r, h⟩
-theorem Quo_total (g : Globals) (d o : Gen.Decimal) (m : Spec.Mode)
-    (hm : Spec.Mode.ofNat? g.DefaultRoundingMode.toNat = some m) : ∃ r, Gen.Decimal.Quo g d o = .ok r :=
-  let ⟨r, h, _⟩ := Props.C02.quo_correct_default g d o m hm; ⟨r, h⟩
-theorem QuoRem_total (g : Globals) (d o : Gen.Decimal) (m : Spec.Mode)
-    (hm : Spec.Mode.ofNat? g.DefaultRoundingMode.toNat = some m) :
-    ∃ r, Gen.Decimal.QuoRem g d o = .ok r :=
-  let ⟨q, r, h, _⟩ := Props.C03.quoRem_correct_default g d o m hm; ⟨(q, r), h⟩
-theorem Pow_total (g : Globals) (d o : Gen.Decimal) (m : Spec.Mode)
-    (hm : Spec.Mode.ofNat? g.DefaultRoundingMode.toNat = some m) : ∃ r, Gen.Decimal.Pow g d o = .ok r := by
-  rw [Props.C18.pow_default]; exact PowWithMode_total d o _ m hm
+/-- the five arithmetic operations for every pair of bit patterns and EVERY mode byte (the correctness
+theorems `Props.C01/C02/C03` cover the six valid modes; the invalid ones are handled in
+`D128/Proofs/TotalAdd.lean`, `TotalQuo.lean`, `TotalQuoRem.lean`, `TotalMisc.lean`) -/
+theorem AddWithMode_total (d o : Gen.Decimal) (rm : UInt8) : ∃ r, Gen.Decimal.AddWithMode d o rm = .ok r :=
+  AddWithMode_total_all d o rm
+theorem SubWithMode_total (d o : Gen.Decimal) (rm : UInt8) : ∃ r, Gen.Decimal.SubWithMode d o rm = .ok r :=
+  SubWithMode_total_all d o rm
+theorem MulWithMode_total (d o : Gen.Decimal) (rm : UInt8) : ∃ r, Gen.Decimal.MulWithMode d o rm = .ok r :=
+  MulWithMode_total_all d o rm
+theorem QuoWithMode_total (d o : Gen.Decimal) (rm : UInt8) : ∃ r, Gen.Decimal.QuoWithMode d o rm = .ok r :=
+  QuoWithMode_total_all d o rm
+theorem QuoRemWithMode_total (d o : Gen.Decimal) (rm : UInt8) :
+    ∃ r, Gen.Decimal.QuoRemWithMode d o rm = .ok r := QuoRemWithMode_total_all d o rm
+theorem Add_total (g : Globals) (d o : Gen.Decimal) : ∃ r, Gen.Decimal.Add g d o = .ok r :=
+  Add_total_all g d o
+theorem Sub_total (g : Globals) (d o : Gen.Decimal) : ∃ r, Gen.Decimal.Sub g d o = .ok r :=
+  Sub_total_all g d o
+theorem Mul_total (g : Globals) (d o : Gen.Decimal) : ∃ r, Gen.Decimal.Mul g d o = .ok r :=
+  Mul_total_all g d o
+theorem Quo_total (g : Globals) (d o : Gen.Decimal) : ∃ r, Gen.Decimal.Quo g d o = .ok r :=
+  Quo_total_all g d o
+theorem QuoRem_total (g : Globals) (d o : Gen.Decimal) : ∃ r, Gen.Decimal.QuoRem g d o = .ok r :=
+  QuoRem_total_all g d o
 
 /-- `Decimal.Round` for every `dp` and every mode byte -/
 theorem Decimal_Round_total (d : Gen.Decimal) (dp : Int64) (rm : UInt8) :
@@ -216,22 +230,50 @@ theorem Ceil_total (d : Gen.Decimal) : ∃ r, Gen.Ceil d = .ok r :=
 theorem Floor_total (d : Gen.Decimal) : ∃ r, Gen.Floor d = .ok r :=
   let ⟨r, h, _⟩ := Props.C08.pkg_floor_correct d; ⟨r, h⟩
 
-theorem FromFloat64_total (g : Globals) (f : Go.F64) (m : Spec.Mode)
-    (hm : Spec.Mode.ofNat? g.DefaultRoundingMode.toNat = some m) : ∃ r, Gen.FromFloat64 g f = .ok r :=
-  let ⟨r, h, _⟩ := Props.C09.fromFloat64_correct g f m hm; ⟨r, h⟩
-theorem FromFloat32_total (g : Globals) (f : Go.F32) (m : Spec.Mode)
-    (hm : Spec.Mode.ofNat? g.DefaultRoundingMode.toNat = some m) : ∃ r, Gen.FromFloat32 g f = .ok r :=
-  let ⟨r, h, _⟩ := Props.C09.fromFloat32_correct g f m hm; ⟨r, h⟩
+/-- every float64 bit pattern, every `DefaultRoundingMode` byte (C09 covers the five valid modes) -/
+theorem FromFloat64_total (g : Globals) (f : Go.F64) : ∃ r, Gen.FromFloat64 g f = .ok r :=
+  FromFloat64_total_all g f
+theorem FromFloat32_total (g : Globals) (f : Go.F32) : ∃ r, Gen.FromFloat32 g f = .ok r :=
+  FromFloat32_total_all g f
 theorem Float64_total (d : Gen.Decimal) : ∃ r, Gen.Decimal.Float64 d = .ok r :=
   Props.C09.float64_total d
 theorem Float32_total (d : Gen.Decimal) : ∃ r, Gen.Decimal.Float32 d = .ok r :=
   Props.C09.float32_total d
 
-theorem New_total (g : Globals) (sig exp : Int64) (m : Spec.Mode)
-    (hm : Spec.Mode.ofNat? g.DefaultRoundingMode.toNat = some m) : ∃ r, Gen.New g sig exp = .ok r :=
-  let ⟨r, h, _⟩ := Props.C11b.new_correct g sig exp m hm; ⟨r, h⟩
-theorem Ldexp_total (g : Globals) (d : Gen.Decimal) (exp : Int64) (m : Spec.Mode)
-    (hm : Spec.Mode.ofNat? g.DefaultRoundingMode.toNat = some m) : ∃ r, Gen.Ldexp g d exp = .ok r :=
-  let ⟨r, h, _⟩ := Props.C11b.ldexp_correct g d exp m hm; ⟨r, h⟩
+theorem New_total (g : Globals) (sig exp : Int64) : ∃ r, Gen.New g sig exp = .ok r :=
+  New_total_all g sig exp
+theorem Ldexp_total (g : Globals) (d : Gen.Decimal) (exp : Int64) : ∃ r, Gen.Ldexp g d exp = .ok r :=
+  Ldexp_total_all g d exp
+
+/-! ## Part D: the text entry points built on `parse` (from C05), with the documented panic -/
+
+theorem Parse_total (g : Globals) (s : Go.Bytes) (hsz : s.size < 2^63) :
+    ∃ r, Gen.Parse g s = .ok r := by
+  obtain ⟨r, e, h, _⟩ := Props.C05.parse_total g s 6 hsz
+  exact ⟨(r, e), by unfold Gen.Parse; rw [h]⟩
+
+theorem UnmarshalText_total (g : Globals) (d : Gen.Decimal) (data : Go.Bytes) (hsz : data.size < 2^63) :
+    ∃ r, Gen.Decimal.UnmarshalText g d data = .ok r := by
+  obtain ⟨r, e, h, _⟩ := Props.C05.parse_total g data 8 hsz
+  unfold Gen.Decimal.UnmarshalText
+  rw [h]
+  by_cases he : e = .nil
+  · subst he; exact ⟨_, rfl⟩
+  · refine ⟨(d, e), ?_⟩
+    simp [bind, Except.bind, he, pure, Except.pure]
+
+/-- `MustParse` panics exactly when `parse` reports an error (the documented panic), and returns the
+parsed value otherwise; it never fails in any other way -/
+theorem MustParse_panics_iff (g : Globals) (s : Go.Bytes) (hsz : s.size < 2^63) :
+    ∃ r e, Gen.parse g s 4 = .ok (r, e) ∧
+      (e = .nil → Gen.MustParse g s = .ok r) ∧
+      (e ≠ .nil → Gen.MustParse g s = .error (.explicit "panic")) := by
+  obtain ⟨r, e, h, _⟩ := Props.C05.parse_total g s 4 hsz
+  refine ⟨r, e, h, ?_, ?_⟩
+  · intro he; subst he; unfold Gen.MustParse; rw [h]; rfl
+  · intro he; unfold Gen.MustParse; rw [h]
+    simp [bind, Except.bind, he, throw, throwThe, MonadExceptOf.throw]
+
+example : ∃ r, Gen.Parse ⟨0⟩ "1.5e3".toUTF8.data = .ok r := Parse_total _ _ (by decide)
 
 end Props.C20b
